@@ -51,6 +51,24 @@ HISTORY = {
                                      "(7 control-flow shapes for f x g x call position)",
     "C16-enum-methods-set-order": "MISSED at first: no corpus Enum had methods -> corpus/enums.py in the grid",
     "C11-merge-shifts-in-place": "caught outright",
+    "C29-commonprefix-containment": "MISSED at first: no pre-existing path whose name extends a creatable name -> "
+                                    "file 'newer' next to creatable 'new'",
+    "C13-shrink-resets-capacity": "caught outright",
+    "C32-shared-return-queue": "first run ended as a HARNESS error (schedule replay diverged: one executor was "
+                               "shared by all explored schedules) -> fresh executor per schedule; now a clean violation",
+    "C30-stale-null-file-local": "caught outright",
+    "C05-restore-only-on-exception": "MISSED at first: raising operands raised ValueError only -> SystemExit / "
+                                     "BaseException-only operands and context bodies",
+    "C12-crossover-shares-tests": "MISSED at first: needs depth 4 from the warm root -> new root state 'two live "
+                                  "suites after a crossover between them'",
+    "C15-replace-keeps-stale-registry": "caught outright",
+    "C22-stale-baseline-across-tests": "caught outright",
+    "C06-dedup-by-node": "caught outright",
+    "C03-abs-tolerance-zero": "MISSED at first: integer/None/str inputs only -> almost-equal and denormal floats "
+                              "in the input menu",
+    "C02-last-line-across-traces": "MISSED at first: every program started with 'x = 0' -> raw seeds whose last "
+                                   "executed line is the first line of the next call",
+    "C17-strict-greater-test-executions": "caught outright",
 }
 
 
